@@ -172,6 +172,10 @@ Proof. cbn. rewrite Nat.eqb_refl. reflexivity. Qed.
 Definition nolisten (st : sstate) : Prop :=
   st = StEstablished \/ st = StCloseWait \/ st = StDisconnect \/ st = StShutdown.
 
+(* a UI PDU whose source / destination is the address [oa] *)
+Definition ui_src (oa : option Z) (p : pdu) : Prop := exists d data a, p = PUI d a data /\ oa = Some a.
+Definition ui_dst (oa : option Z) (p : pdu) : Prop := exists d sa data, p = PUI d sa data /\ oa = Some d.
+
 Record wf (c : ctl) : Prop := mkWf {
   wf_len : length (c_sap c) = 64%nat;
   wf_sap0 : exists sl, sap_get c 0 = Sap [] sl;
@@ -199,7 +203,11 @@ Record wf (c : ctl) : Prop := mkWf {
   wf_bname_snl : forall a i s n, listed c a i -> get_sock c i = Some s -> s_bname s = Some n -> lookup (c_snl c) n = Some a;
   wf_snl_bname : forall a i s n, 2 <= a -> lookup (c_snl c) n = Some a -> listed c a i -> get_sock c i = Some s ->
       s_bname s = Some n \/ (s_bname s = None /\ nolisten (s_state s));
-  wf_unbound_noname : forall i s, get_sock c i = Some s -> s_addr s = None -> s_bname s = None
+  wf_unbound_noname : forall i s, get_sock c i = Some s -> s_addr s = None -> s_bname s = None;
+  (* datagram sockets: every PDU waiting to be sent is a UI PDU carrying the socket's own address as source,
+     every PDU waiting to be received is a UI PDU addressed to the socket's own address *)
+  wf_ldl_sq : forall i s p, get_sock c i = Some s -> s_type s = TLdl -> In p (s_sendq s) -> ui_src (s_addr s) p;
+  wf_ldl_rq : forall i s p, get_sock c i = Some s -> s_type s = TLdl -> In p (s_recvq s) -> ui_dst (s_addr s) p
 }.
 
 (* wf only looks at the SAP table, the name table and the sockets *)
